@@ -19,7 +19,7 @@ structure W (c : Cfg) (a : ANode) : Prop where
 
 /-- the node `NewManager` builds on an empty disk, **for every initial height ≥ 1**: both watermarks are
 `initialHeight − 1`, which is the chain height -/
-theorem W_fresh (c : Cfg) (h1 : 1 ≤ c.initialHeight) : W c { n := freshNode c } := by
+theorem W_fresh (c : Cfg) (h1 : 1 ≤ c.initialHeight) : W c (freshA c) := by
   obtain ⟨hh, _, _, _⟩ := freshDisk_facts c
   have hht : (freshNode c).store.height = c.initialHeight - 1 := hh
   have h0 : (freshNode c).hdrWm = wmRaise c 0 := rfl
